@@ -456,7 +456,7 @@ def snapCheck (st : St) (toks : List String) (opS impl : String) : List (String 
   let isObs := (op == "poll" && toks.getLast? == some "0") || op == "get-offset" || isCat || isPlain
   let isIdentity := op == "flush" || op == "save" || op == "restart" || op == "evict" || op == "clock" ||
     op == "topic" || op == "stats" || op == "cacheinfo" || op == "ls" || (op.startsWith "scan") || op == "ping" ||
-    op == "group" || op == "me" || op == "conn" || op == "login" || op == "pats" ||
+    op == "group" || op == "me" || op == "conn" || op == "pats" ||
     -- C13: a frame that is not a valid request leaves everything untouched
     op == "raw-open" || op == "raw-send" || op == "raw-refused" || op == "raw-close"
   if isObs then
@@ -465,6 +465,13 @@ def snapCheck (st : St) (toks : List String) (opS impl : String) : List (String 
       if e.2 == impl then (st.snap, st.snapRestart, none)
       else (st.snap, st.snapRestart, some (if st.snapRestart then "obs-changed-restart" else "obs-changed"))
     | none => ((opS, impl) :: st.snap, st.snapRestart, none)
+  else if op == "login" || op == "login-pat" || op == "logout" then
+    -- who a connection is decides what it may see: its own earlier answers are no oracle any more
+    -- (connections 0 and 7 are always root: the runner logs them in again after a restart)
+    let c := toks.getD 1 ""
+    let snap := if c == "0" || c == "7" then st.snap else st.snap.filter (fun e =>
+      ((e.1.splitOn " ").filter (· ≠ "")).getD 1 "" != c)
+    (snap, st.snapRestart, none)
   else if isIdentity then
     -- connections do not survive a restart: only the root connection (0) and the HTTP root connection (7),
     -- which the runner logs in again, can ask the same question afterwards
